@@ -84,6 +84,34 @@ struct Instance {
     bool has(int c) const { return (bool)ops[c]; }
 };
 
+// what create() found out about a wrapper by probing it through its public interface (no private member names)
+struct WInfo {
+    const void* w = nullptr;
+    const void* mtx = nullptr;  // the lock a handle / load takes (nullptr: none, e.g. locking disabled)
+    const Pair* obj = nullptr;  // the wrapped object as seen through a handle (nullptr: no handle interface)
+};
+extern WInfo g_winfo[4];
+inline WInfo& winfo_of(const void* w)
+{
+    for (auto& e : g_winfo)
+        if (e.w == w) return e;
+    for (auto& e : g_winfo)
+        if (!e.w) {
+            e = WInfo{};
+            e.w = w;
+            return e;
+        }
+    mcrt::fail("INTERNAL", "wrapper table full");
+    return g_winfo[0];
+}
+inline const void* mutex_of(const void* w) { return winfo_of(w).mtx; }
+inline const Pair* obj_of(const void* w) { return winfo_of(w).obj; }
+inline void forget_wrapper(const void* w)
+{
+    for (auto& e : g_winfo)
+        if (e.w == w) e = WInfo{};
+}
+
 std::vector<Instance> all_instances();
 // per-fiber hook run while a shared handle is held (rendezvous programs)
 extern std::function<void()>* g_hold[8];
